@@ -459,6 +459,17 @@ def setitem(it, base, idx, v, line=None):
                 return
             it.raise_py('IndexError', 'list assignment index out of range', line)
         raise Unsupported('store into a symbolic list position')
+    if isinstance(base, SAny) and getattr(base, 'origin', None) is not None and not it.spec():
+        # d[k1][k2] = v where d[k1] is a dict stored (by value) in a symbolic dict: write the updated dict back
+        d, k = base.origin
+        t = base.t
+        if not it.ctx.branch(PV.is_PDict(t), 'isdict@%s' % line):
+            it.raise_py('TypeError', 'object does not support item assignment', line)
+        ke = pv.kenc(idx)
+        keys = z3.If(PV.dvals(t)[ke] == pv.PAbsent, z3.Concat(PV.dkeys(t), z3.Unit(lift(idx))), PV.dkeys(t))
+        new = PV.PDict(keys, z3.Store(PV.dvals(t), ke, lift(v)))
+        dict_store(it, d, k, SAny(new))
+        return
     if isinstance(base, VObj):
         si = it.getattr(base, '__setitem__', line, default=None)
         if si is not None:
@@ -1809,6 +1820,10 @@ def _quant(it, e, env, universal):
             if not terms:
                 return universal
             return mkbool(z3.And(*terms) if universal else z3.Or(*terms))
+        if isinstance(coll, SAny) and len(names) == 2 and getattr(lam, '_as_dict', True) and \
+                not isinstance(args[0], ast.Call):
+            # (key, value) quantification over an untyped value: a dict
+            coll = VDict(arr=PV.dvals(coll.t))
         if isinstance(coll, (VKeys, VDict)):
             # keys of symbolically indexed dicts are strings: quantify over the index itself
             k = ctx.fresh(z3.StringSort(), names[0])
